@@ -26,6 +26,7 @@ from aws_durable_execution_sdk_python.lambda_service import (  # noqa: E402
     CheckpointOutput,
     CheckpointUpdatedExecutionState,
     OperationUpdate,
+    StateOutput,
 )
 
 D.rebind_sdk()
@@ -43,7 +44,8 @@ META = {
         "earlier updates of that producer and all updates whose calls had returned before it started are already "
         "delivered; per-producer program order and call_end(A)<call_start(B)=>A before B; token(i+1)==token returned "
         "by call i; count<=limit; size<=limit unless single update; every sync caller returns (deadlock/time-cap = "
-        "violation), also when the backend call fails (then with the failure, and no call follows the failed one); after "
+        "violation), also when the backend call fails - the checkpoint call itself or a get-state call that fetches the "
+        "remaining pages of a paged checkpoint response - (then with the failure, and no call follows the failed one); after "
         "the final flush nothing is missing. Non-trivial = >=2 API calls and (an update went through "
         "the overflow path (its call exceeded the batch's remaining size) or arrived during an open window); distinct = "
         "(config, scripts, decision-trace hash)."
@@ -78,6 +80,9 @@ def run_scenario(scn: dict, chooser, *, line_mode=False):
     calls: dict = {}  # id -> {start, end, sync, producer, idx}
     viol: list = []
     stats = {"overflow": 0, "window": 0}
+    state_calls = [0]
+    failed_state = [False]
+    may_fail = scn.get("fail_call") is not None or (scn.get("fail_state_call") is not None and scn.get("pages"))
 
     def tick():
         clock[0] += 1
@@ -91,11 +96,13 @@ def run_scenario(scn: dict, chooser, *, line_mode=False):
             rec = {"token": checkpoint_token, "ids": [u.operation_id for u in updates], "sizes": [_size(u) for u in updates], "start": tick()}
             api_calls.append(rec)
             sched.yield_point("api")
+            if failed_state[0]:
+                viol.append(("api_call_after_failure", "stream", f"checkpoint call #{len(api_calls) - 1} issued after a get-state call had failed"))
             if scn.get("fail_call") is not None and len(api_calls) - 1 >= scn["fail_call"]:
                 rec["failed"] = True
                 if len(api_calls) - 1 > scn["fail_call"]:
                     viol.append(("api_call_after_failure", "stream", f"call #{len(api_calls) - 1} issued after call #{scn['fail_call']} failed"))
-                raise RuntimeError("backend says no")
+                raise D.InjectedFault("backend says no")
             k = len(api_calls) - 1
             for pos, u in enumerate(updates):
                 if u.operation_id in delivered:
@@ -105,10 +112,24 @@ def run_scenario(scn: dict, chooser, *, line_mode=False):
             rec["end"] = tick()
             rec["ret"] = f"tok-{k + 1}"
             sched.yield_point("api")
-            return CheckpointOutput(checkpoint_token=rec["ret"], new_execution_state=CheckpointUpdatedExecutionState())
+            pages = scn.get("pages") or 0
+            marker = f"m-{k}-{pages}" if pages and (scn.get("paged_calls") is None or k in scn["paged_calls"]) else None
+            return CheckpointOutput(checkpoint_token=rec["ret"], new_execution_state=CheckpointUpdatedExecutionState(operations=[], next_marker=marker))
 
-        def get_execution_state(self, *a, **k):  # pragma: no cover - not used here
-            raise AssertionError("unexpected get_execution_state")
+        def get_execution_state(self, durable_execution_arn=None, checkpoint_token=None, next_marker=None, *a, **kw):
+            # the response of a checkpoint call was paged: the background thread fetches the remaining pages
+            n = state_calls[0]
+            state_calls[0] += 1
+            sched.yield_point("api")
+            if failed_state[0] or any(c.get("failed") for c in api_calls):
+                viol.append(("api_call_after_failure", "stream", f"get-state call #{n} issued after a backend call had failed"))
+            if scn.get("fail_state_call") is not None and n >= scn["fail_state_call"]:
+                failed_state[0] = True
+                raise D.InjectedFault("backend says no (get state)")
+            _, k, left = str(next_marker).split("-")
+            left = int(left) - 1
+            sched.yield_point("api")
+            return StateOutput(operations=[], next_marker=f"m-{k}-{left}" if left > 0 else None)
 
     def check_on_sync_return(me, idx, uid, started_at):
         done_calls = [c for c in api_calls if "end" in c]
@@ -143,7 +164,7 @@ def run_scenario(scn: dict, chooser, *, line_mode=False):
             try:
                 state.create_checkpoint(upd, is_sync=sync)
             except BackgroundThreadError as e:
-                if scn.get("fail_call") is None:  # never expected: the client does not fail
+                if not may_fail:  # never expected: the client does not fail
                     viol.append(("unexpected_failure", "create_checkpoint", repr(e)))
                 if uid is not None:
                     calls[uid]["end"] = tick()
@@ -167,7 +188,7 @@ def run_scenario(scn: dict, chooser, *, line_mode=False):
             flushed = True
         except BackgroundThreadError:
             flushed = False
-            if scn.get("fail_call") is None:
+            if not may_fail:
                 viol.append(("unexpected_failure", "final-flush", "BackgroundThreadError without a failing client"))
         have = {i for c in api_calls if "end" in c for i in c["ids"]}
         for oid in calls:
@@ -289,7 +310,13 @@ def scenarios(draw):
     else:
         ch = {"mode": "seq", "preempt": draw(st.lists(st.tuples(st.integers(1, 400), st.integers(0, 4)).map(list), max_size=4))}
     fail_call = draw(st.sampled_from([None, None, None, 0, 1, 2]))
-    return {"scn": {"config": cfg, "scripts": scripts, "fail_call": fail_call}, "chooser": ch, "line": draw(st.sampled_from([False, False, True]))}
+    extra = {}
+    if draw(st.integers(0, 3)) == 0:
+        # paged checkpoint responses: the background thread issues get-state calls between "call succeeded" and
+        # "waiters released"; one of those may fail
+        extra = {"pages": draw(st.integers(1, 3)), "paged_calls": draw(st.sampled_from([None, [0], [1], [0, 2]])),
+                 "fail_state_call": draw(st.sampled_from([None, None, 0, 1, 2]))}
+    return {"scn": {"config": cfg, "scripts": scripts, "fail_call": fail_call, **extra}, "chooser": ch, "line": draw(st.sampled_from([False, False, True]))}
 
 
 BOUNDED_CONFIGS = [
